@@ -91,7 +91,7 @@ func init() {
 		switch t.name {
 		case "IntKeyLinkedMap":
 			t.xops = append(t.xops, "GKS")
-		case "IntIntLinkedMap", "LongLongLinkedMap":
+		case "IntIntLinkedMap", "LongLongLinkedMap", "IntFloatLinkedMap", "LongFloatLinkedMap":
 			t.xops = append(t.xops, "TOF")
 		}
 	}
